@@ -9,7 +9,7 @@ from checks import krill_common as kc
 
 PID = "C19"
 LEVEL = "model_checking"
-THEMES = ["status", "chain"]
+THEMES = ["status", "chain", "multi"]
 NEEDED = ["PubRemove", "PubAdd", "RepoSyncAll", "Restart", "ChildRemove",
           "DeleteCa", "Settled"]
 
@@ -67,9 +67,9 @@ def run(tier, seed):
     return kc.run_property(
         PID, LEVEL, tier, seed, THEMES, quick_num=10, thorough_num=150,
         assumptions=kc.COMMON_ASSUMPTIONS + [
-            "one parent per CA: parent status entries other than the one for "
-            "the CA's parent must not exist; removal of a parent is not "
-            "exercised",
+            "parent status entries other than those for the CA's parents "
+            "must not exist; a removed parent's entry must be gone (theme "
+            "multi: a CA with two parents, parents removed and added again)",
             "the error text of a failure is not compared, only that a "
             "failure is shown exactly when the most recent exchange failed",
             "reports about a deleted CA are observable only through the API, "
@@ -79,7 +79,9 @@ def run(tier, seed):
         ], rule=RULE,
         mc_cfgs=(["MC_Krill_q_status.cfg"] if tier == "quick"
                  else ["MC_Krill_q_status.cfg", "MC_Krill_status.cfg"]),
-        needed_events=NEEDED, directed=DIRECTED)
+        needed_events=NEEDED + ["RemoveParent", "AddParent"],
+        directed=DIRECTED + kc.MULTI_DIRECTED[:1],
+        theme_nums={"multi": (4, 40)})
 
 
 def replay(path, seed):
